@@ -410,6 +410,12 @@ class BuiltinMixin:
         yield st, TupleV(items)
 
     def bi_set(self, st, args, kwargs):
+        if not args and getattr(self, "symbolic_sets", False):
+            # an empty set that will hold symbolic ints: characteristic array, everything absent
+            s1, ref = self.make_symset(st, self.fresh("set"))
+            arr = s1.obj(ref).extra["arr"]
+            yield self._upd(s1, ref, arr=z3.K(arr.sort().domain(), z3.BoolVal(False))), ref
+            return
         items = self.iter_items(st, args[0]) if args else []
         if items is None:
             raise Unsupported("set() over non-meta iterable")
